@@ -196,6 +196,21 @@ OPTION_PRESETS = [
 E2E_KINDS = ["item", "assoc_item", "stmt", "field", "variant", "arm", "param", "arg", "expr_field"]
 
 
+# (wrapper or None, text before the elements, elements, text after): elements whose own text contains the delimiters that the
+# list code searches for
+FNW = "fn wrapper() {\n%s\n}\n"
+LIST_FORMS = [
+    (None, "fn f(", ["a: (u8, u8)", "b: fn() -> bool", "c: impl Fn(u32) -> u32"], ") {}"),
+    (FNW, "    call(", ["(a, b)", "f(x)", "|y| (y)"], "    );"),
+    (None, "struct S {", ["a: (u8, u8)", "b: fn(u8) -> u8", "c: [u8; 2]"], "}"),
+    (None, "struct T(", ["pub (u8, u8)", "pub u32"], ");"),
+    (None, "enum E {", ["A(u8, u8)", "B { x: u8 }", "C = 3"], "}"),
+    (FNW, "    match v {", ["(a, b) => 1", "S { x } => 2", "_ => (3)"], "    }"),
+    (None, "fn g<T, U>()\nwhere", ["T: Fn(u8) -> u8", "U: Copy"], "{\n}"),
+    (FNW, "    let t = (", ["(1, 2)", "f(3)"], "    );"),
+    (FNW, "    let s = S {", ["a: (1, 2)", "b: g(3)"], "    };"),
+    (FNW, "    let a = [", ["(1, 2)", "h(3)", "[4]"], "    ];"),
+]
 INSIDE_FORMS = [
     "let v = a + b * c;", "let w = x as u64 as usize;", "let r = &mut value;", "let d = *pointer;", "let n = -number;", "let q = first.second(third).fourth;",
     "let s = Struct { a: 1, b: two };", "let c = |x, y| x + y;", "let m = match k { A => 1, B => 2 };", "let i = if cond { 1 } else { 2 };",
@@ -372,6 +387,38 @@ def e2e(rep, tier, seed):
                 text = (b[:off] + ("/* %s */ " % mark).encode() + b[off:]).decode("utf-8")
                 cases.append({"text": text, "config": [["max_width", w]], "again": False, "lex": False})
                 meta.append(("form/%d.%d" % (fi, bi), "stmt", "inside_form" if cur != "!" else "inside_form_macro_head", mark))
+    # between and after the elements of every kind of list, systematically: elements whose own text contains delimiters, a comment
+    # after EACH element (the last one with and without a trailing separator), comment bodies that quote the delimiters
+    for li, (wrap, pre, elems, suf) in enumerate(LIST_FORMS):
+        for ei in range(len(elems)):
+            for place in ("line_after_sep", "block_before_sep", "block_after_sep", "last_no_sep_line", "last_no_sep_block"):
+                last = ei == len(elems) - 1
+                if place.startswith("last_no_sep") and not last:
+                    continue
+                for quoted in (False, True):
+                    if place.endswith("line") or place.startswith("line"):
+                        if quoted:
+                            continue
+                    mark = "LST%d_%d_%s%sQ" % (li, ei, place[:1] + place[-3:], "q" if quoted else "")
+                    body = mark + (" says \")}]|{,;>\" end" if quoted else "")
+                    rows = []
+                    for k, el in enumerate(elems):
+                        sep = "," if not (k == len(elems) - 1 and place.startswith("last_no_sep")) else ""
+                        if k != ei:
+                            rows.append("    %s%s" % (el, sep))
+                        elif place in ("line_after_sep", "last_no_sep_line"):
+                            rows.append("    %s%s // %s" % (el, sep, body))
+                        elif place == "block_before_sep":
+                            rows.append("    %s /* %s */%s" % (el, body, sep))
+                        else:
+                            rows.append("    %s%s /* %s */" % (el, sep, body))
+                    inner = pre + "\n" + "\n".join(rows) + "\n" + suf
+                    text = (wrap % inner) if wrap else inner + "\n"
+                    for w in ("100", "30"):
+                        if tier != "thorough" and (li + ei + int(w) + seed) % 2 and not last:
+                            continue
+                        cases.append({"text": text, "config": [["max_width", w]], "again": False, "lex": False})
+                        meta.append(("list/%d.%d.%s%s" % (li, ei, place, ".q" if quoted else ""), "list", "element", mark if not quoted else "/* %s */" % body))
     res = common.run_vh_pool("pool", cases, per_case_timeout=15)
     found = n = 0
     per = {}
@@ -383,6 +430,8 @@ def e2e(rep, tier, seed):
         cnt = r["out"].count(mark)
         if cnt != 1:
             key = "comment_%s:%s:%s:%s" % ("lost" if cnt == 0 else "duplicated", kind, style, pid)
+            if kind == "list":
+                key = "comment_%s:list:%s" % ("lost" if cnt == 0 else "duplicated", pid.split("/", 1)[1])
             if style == "inside_form_macro_head":
                 key = "comment_lost:macro_call_head"
             elif style == "inside_form":
@@ -397,7 +446,7 @@ def e2e(rep, tier, seed):
                 found += 1
     rep.coverage["e2e_injections_judged"] = n
     rep.coverage["e2e_per_position"] = {"%s/%s" % k: v for k, v in sorted(per.items())}
-    rep.coverage["e2e_rule"] = "pool source programs (thorough: all; quick: the 1/%d selected by the seed) x up to 2 elements of each kind %s x {block comment before, line comment on its own line before, line comment / block comment at the end of the element's line} under the program's configuration and, rotating, style_edition 2024, another max_width (30 / 50 / 70 / 140) or one of 20 layout-option presets (fn_single_line, group_imports, brace styles, heuristics, Visual indent, comment options ...); 17 one-statement bodies / empty items x line and block comment x 10 single-line option sets (fn_single_line, match_arm_blocks, single-line if/else and let-else, struct_lit_single_line, empty_item_single_line, where_single_line); 40 generated import runs (empty lists included) with comments before / after their declarations under group_imports x imports_granularity x reorder_imports: the marker comment must appear exactly once in the output of every accepted run; a block comment at a random token boundary inside up to 6 statements per program (anywhere inside a statement of a function body), and systematically at EVERY token boundary of 41 statement forms (let / assignment / control flow / item statements / macro-call statements whose arguments parse as expressions) at two widths; plus 66 synthetic expressions with a comment only the safety net can keep, after char / byte / string / raw-string literals containing quotes and comment openers" % (MOD, E2E_KINDS)
+    rep.coverage["e2e_rule"] = "pool source programs (thorough: all; quick: the 1/%d selected by the seed) x up to 2 elements of each kind %s x {block comment before, line comment on its own line before, line comment / block comment at the end of the element's line} under the program's configuration and, rotating, style_edition 2024, another max_width (30 / 50 / 70 / 140) or one of 20 layout-option presets (fn_single_line, group_imports, brace styles, heuristics, Visual indent, comment options ...); 17 one-statement bodies / empty items x line and block comment x 10 single-line option sets (fn_single_line, match_arm_blocks, single-line if/else and let-else, struct_lit_single_line, empty_item_single_line, where_single_line); 40 generated import runs (empty lists included) with comments before / after their declarations under group_imports x imports_granularity x reorder_imports: the marker comment must appear exactly once in the output of every accepted run; a block comment at a random token boundary inside up to 6 statements per program (anywhere inside a statement of a function body), and systematically at EVERY token boundary of 41 statement forms (let / assignment / control flow / item statements / macro-call statements whose arguments parse as expressions) at two widths; a comment after EACH element of 10 kinds of lists (parameters, arguments, fields, tuple fields, variants, arms, where predicates, tuple / struct / array literals) whose elements contain the delimiters themselves, line and block style, before and after the separator, the last element with and without a trailing separator, plain and with a body that quotes the delimiters, at two widths; plus 66 synthetic expressions with a comment only the safety net can keep, after char / byte / string / raw-string literals containing quotes and comment openers" % (MOD, E2E_KINDS)
     return found
 
 
